@@ -134,10 +134,10 @@ Proof.
       apply reshape_txn_exn in E. destruct E as [[->|[->|[->| ->]]]|[->|[->|[->| ->]]]]; cbn; lia.
   - unfold h_rc_create. destruct (v <? 2); [cbn; lia|]. destruct (is_std_rc_name n); [cbn; lia|].
     destruct (rc_create d n); cbn; lia.
-  - unfold h_rc_put. destruct (v <? 7); [cbn; lia|]. destruct (is_std_rc_name n); [cbn; lia|].
+  - unfold h_rc_put. destruct (v <? 2); [cbn; lia|]. destruct (v <? 7); [cbn; lia|]. destruct (is_std_rc_name n); [cbn; lia|].
     destruct (rc_id_of_name d n); [cbn; lia|]. destruct (rc_create d n); cbn; lia.
   - unfold h_rc_rename. destruct (v <? 2); [cbn; lia|]. destruct (6 <? v).
-    + unfold h_rc_put. destruct (v <? 7); [cbn; lia|]. destruct (is_std_rc_name old); [cbn; lia|].
+    + unfold h_rc_put. destruct (v <? 2); [cbn; lia|]. destruct (v <? 7); [cbn; lia|]. destruct (is_std_rc_name old); [cbn; lia|].
       destruct (rc_id_of_name d old); [cbn; lia|]. destruct (rc_create d old); cbn; lia.
     + destruct (is_std_rc_name new); [cbn; lia|]. destruct (rc_rename d old new) as [?|[]]; cbn; lia.
   - unfold h_rc_delete. destruct (v <? 2); [cbn; lia|]. destruct (rc_destroy d n) as [?|[]]; cbn; lia.
